@@ -921,7 +921,7 @@ def evaluate__tokenize(self: XPathFunction, context: ta.ContextType = None) -> t
         return []
     elif self.parser.version >= '3.1' and len(self) == 1:
         pattern = ' '
-        input_string = ' '.join(re.split('[ \t\n\r\f\v]+', input_string.strip(' \t\n\r\f\v')))
+        input_string = ' '.join(re.split('[ \t\n\r]+', input_string.strip(' \t\n\r')))
     else:
         pattern = self.get_argument(context, 1, required=True, cls=str)
 
